@@ -659,6 +659,7 @@ def expand(template_path, std=True):
                 g.log.rule("Rclosure: closure given typed parameters and an `ensures`; its body text is unchanged")
             if invariants:
                 body = splice_invariants(body, invariants, name)
+            check_loops_annotated(body, name)
             spec = "\n".join(spec_lines)
             out.append("// ---- extracted verbatim from %s (%s) fn %s" % (file, where, name))
             out.append(sig)
@@ -682,6 +683,23 @@ def expand(template_path, std=True):
         i += 1
     g.text = "\n".join(out) + "\n"
     return g
+
+
+def check_loops_annotated(body, name):
+    """Every loop of an extracted body must carry an invariant from the template.  A loop the template does not know (added or
+    moved by an edit of /repo) would otherwise be verified with an empty invariant and fail for want of annotation, not for a
+    semantic reason: that is undecided (exit 2), never an alarm."""
+    i = 1
+    k = 0
+    while True:
+        m = find_code(body, r"\b(while|for|loop)\b", i)
+        if not m:
+            return
+        k += 1
+        ob = first_brace_at_depth0(body, m.end())
+        if not re.search(r"\binvariant\b", body[m.end():ob]):
+            raise Undecided("fn %s: loop #%d carries no invariant from the template (loop added or moved); undecided, not a violation" % (name, k))
+        i = m.end()
 
 
 def splice_invariants(body, invariants, name):
